@@ -15,12 +15,19 @@ LITS = {
     "bool": ["true", "false", "(true && false)", "(false || true)", "(1 < 2)"],
     "string": ['"ab"', '""', '("a" + "b")', 'to_string(3)'],
     "vec": ["[1, 2]", "[]", "[1 + 1, 2 * 3]", '["x", "y"]', "[[1], [2, 3]]"],
+    "nvec": ["[1, 2]", "[0, 0, 0]", "[1 + 1, 2 * 3]", "[1, 2, -3]", "[7]", "[5, 6, 7, 8]"],
+    # arithmetic constructors of a literal: at run time a fresh temporary per evaluation (some are folded by the optimizer)
+    "conv": ["int(5)", "long(7)", "size_t(3)", "uint8_t(200)", "long_long(7)", "unsigned_int(3)", "int64_t(5)", "uint16_t(9)", "unsigned_long(4)", "int8_t(6)"],
 }
 MUT = {
     "int": ["%s += 1", "%s *= 2", "++%s", "%s = 9", "%s -= 3"],
     "bool": ["%s = !%s", "%s = false"],
     "string": ['%s += "x"', '%s = "z"'],
     "vec": ["%s.push_back(4)", "if (!%s.empty()) { %s[0] = 8 }", "if (!%s.empty()) { %s.pop_back() }", "%s = [5]"],
+    "nvec": ["%s.push_back(4)", "if (!%s.empty()) { %s[0] = 8 }",
+            # not idempotent: a change that reaches a cell shared between evaluations shows up as a different value next time
+            "if (!%s.empty()) { %s[0] += 1 }", "if (!%s.empty()) { ++%s[0] }", "if (!%s.empty()) { %s[0] *= 2 }", "for (x : %s) { x += 1 }", "if (%s.size() > 1) { %s[1] -= 3 }"],
+    "conv": ["%s += 1", "%s /= 2", "++%s", "%s *= 3", "%s -= 1"],
 }
 
 
@@ -70,8 +77,8 @@ class G:
             w = self.fresh()
             return ["var %s = %s" % (w, lit), "var l%s = fun[%s]() { %s; %s }" % (v, w, fmt(r.choice(MUT[t]), w), w)], "l%s()" % v
         if k == "push_back":
-            return ["var %s = []" % v, "%s.push_back(%s)" % (v, lit), "if (!%s.empty()) { try { %s } catch(e) { print(\"refused\") } }" % (v, fmt(r.choice(MUT[t]), v + "[0]") if t != "vec" else "%s[0].push_back(1)" % v)], v
-        if k == "member" and t in ("vec", "string"):
+            return ["var %s = []" % v, "%s.push_back(%s)" % (v, lit), "if (!%s.empty()) { try { %s } catch(e) { print(\"refused\") } }" % (v, fmt(r.choice(MUT[t]), v + "[0]") if t not in ("vec", "nvec") else "%s[0].push_back(1)" % v)], v
+        if k == "member" and t in ("vec", "nvec", "string"):
             return [], "%s.size()" % lit
         return ["try { %s } catch(e) { print(\"refused\") }" % fmt(r.choice(MUT[t]), "(" + lit + ")")] if t == "int" else [], lit
 
